@@ -37,11 +37,26 @@ CONFIGS = [
     {"include_pgns": [127250, 129029, 127245]},
     {"exclude_manufacturer_code": ["Garmin", "Furuno"], "exclude_pgns": [60928]},
     {"include_manufacturer_code": ["Maretron", "Airmar", "Simrad"], "include_pgns": [127250, 129029, 65285, 65286, 130842, 130850, 130820]},
+    # include list made of ids only: the definitions the probes use (their sibling definitions arrive in the histories and are ignored)
+    {"include_pgns": ["vesselHeading", "gnssPositionData", "airmarBootStateAcknowledgment", "chetcoDimmer", "furunoSixDegreesOfFreedomMovement",
+                      "simnetCommandApStandby", "fusionPowerState"]},
+    {"exclude_pgns": ["seatalk1PilotMode", "simnetApCommand", "fusionSetMute", "furunoHeave"], "preferred_units": {}},
 ]
 # (no configuration with network mapping on: its discovery window makes results depend on the time since construction, which differs
 #  between the used decoder and the fresh baseline by design)
 
-BAD_LINES = ["", "garbage", "A000001.000", "A1.1 zz zz zz", "A000001.000 09FF7 1F112", "X000001.000 09FF7 1F112 00", "A000001.000 09FF7 1F112 0",
+def odd_address_lines():
+    """canboat plain-text lines (frame by frame) whose source / destination lie outside 0..255: first frames of the probe PGNs that
+    alias the probe's (pgn, source, destination) when the numbers are packed into bytes."""
+    out = []
+    for pgn in (129029, 130842, 130850, 130820):
+        for src, dest in ((PROBE_SRC - 1, 511), (PROBE_SRC + 256, 255), (PROBE_SRC, 255 + 256), (PROBE_SRC - 1, 255 + 256), (PROBE_SRC + 65536, 255), (-179, 255)):
+            for seq in (0, 1, 7):
+                out.append("2024-01-01-00:00:00.000,3,%d,%d,%d,8,%02x,2b,01,02,03,04,05,06" % (pgn, src, dest, seq << 5))
+    return out
+
+
+BAD_LINES = odd_address_lines() + ["", "garbage", "A000001.000", "A1.1 zz zz zz", "A000001.000 09FF7 1F112", "X000001.000 09FF7 1F112 00", "A000001.000 09FF7 1F112 0",
              "00:00:00.000 R", "00:00:00.000 Q 09F11201 01 02", "xx R 09F11201 01", "00:00:00.000 R 09F11201 zz", "00:00:00.000 R 09F11201",
              "1,2,3", "2024-01-01-00:00:00.000,3,127250,1,255,8,zz", "notadate,3,127250,1,255,1,00", "2024-01-01-00:00:00.000,3,x,1,255,1,00"]
 
@@ -50,7 +65,7 @@ BAD_LINES = ["", "garbage", "A000001.000", "A1.1 zz zz zz", "A000001.000 09FF7 1
 def ops(draw):
     n_dec = draw(st.integers(2, 3))
     out = []
-    items = draw(traffic.history(min_msgs=3, max_msgs=12, sources=(1, 2, PROBE_SRC), junk=True,
+    items = draw(traffic.history(min_msgs=3, max_msgs=12, sources=(1, 2, PROBE_SRC), junk=True, twins=True,
                                  fast_keys=["129029/gnssPositionData", "126996/productInformation", "127489/engineParametersDynamic"]))
     # drop some frames so that messages stay incomplete
     for it in items:
@@ -113,6 +128,10 @@ class World:
                     v.append("vesselHeading")
                     if 130306 in v:
                         v.remove(130306)
+                elif isinstance(v, dict):
+                    from nmea2000.consts import PhysicalQuantities as PQ
+                    v[PQ.ANGLE] = "deg"
+                    v[PQ.TEMPERATURE] = "f"
         self.encs = [NMEA2000Encoder(), NMEA2000Encoder()]
         self.claims = [[] for _ in cfg_idx]
         self.last_seq = [{} for _ in cfg_idx]
@@ -173,6 +192,14 @@ class World:
                         if isinstance(v, list):
                             v.append(127250)
                             v.append("vesselHeading")
+                        elif isinstance(v, dict):
+                            v["edited"] = "by the caller"
+                    # ... and the application reconfigures THAT decoder in place (switches its units, clears its maps)
+                    from nmea2000.consts import PhysicalQuantities as PQ
+                    for name, val in (("preferred_units", {PQ.ANGLE: "deg", PQ.TEMPERATURE: "c", PQ.SPEED: "kts", PQ.PRESSURE: "bar"}),):
+                        cur = getattr(d, name, None)
+                        if isinstance(cur, dict):
+                            cur.update(val)
                 self.extra.append(d)
             elif k == "warp":
                 from ..common import CLOCK
